@@ -121,9 +121,10 @@ def cmd_discover(args):
     for txn in unknown_txns:
         raw = txn.get('raw_description', txn.get('description', ''))
         raw_amount = txn.get('amount', 0)
-        amount = abs(raw_amount)
         desc_stats[raw]['count'] += 1
-        desc_stats[raw]['total'] += amount
+        # Signed, like the totals `tally up` reports for the same transactions: a refund
+        # offsets its purchase (has_negative flags it)
+        desc_stats[raw]['total'] += raw_amount
         if raw_amount < 0:
             desc_stats[raw]['has_negative'] = True
         if len(desc_stats[raw]['examples']) < 3:
